@@ -33,6 +33,12 @@ func engineFaults(r *RunCtx) {
 			w.Cfg.MaxToks = 1
 		}
 		spec := genBatch(c, w.Cfg, n, n*2+8)
+		if c.Prob(1, 40, "eng.manyvecs") {
+			// several thousand vectors in one field: more than any internal batching
+			// of the engine calls by the thousand(s) takes in one go
+			spec = genVectorBoundaryBatch(c, w.Cfg, 4097+c.Choose(1200, "eng.manyvecsN"))
+			r.count("probe.vec.field>4096vectors")
+		}
 		faiss.ResetCounters()
 		refSeg, _, err := plugin.New(Materialize(spec, nil))
 		if err != nil {
@@ -85,6 +91,12 @@ func engineFaults(r *RunCtx) {
 		r.count("op.build")
 	} else {
 		w.smallWorld(len(w.Cfg.SynFields) > 0, true)
+		if c.Prob(1, 40, "eng.manyvecs") {
+			h := w.Build(genVectorBoundaryBatch(c, w.Cfg, 4097+c.Choose(1200, "eng.manyvecsN")), nil)
+			h.Canon = w.extract(h.Seg, "built segment "+h.Name)
+			w.Add(h)
+			r.count("probe.vec.field>4096vectors")
+		}
 		sc := w.genMergeScenario()
 		faiss.ResetCounters()
 		ref := w.referenceMerge(sc)
